@@ -181,6 +181,64 @@ class DeliveryModel(Monitor):
 # ------------------------------------------------------------------ C02(b)
 
 
+class PeerOpensMonitor(Monitor):
+    """'Every protected packet an endpoint emits is recovered by its peer': a genuine, unaltered packet handed to the
+    endpoint that holds the keys of its level must be opened by that endpoint's packet protection.
+
+    Whether it was opened is observed at CryptoPair.decrypt_packet (the class-level watch of AckMonitor).  Which
+    packets the receiver *must* be able to open is decided conservatively: 0-RTT packets delivered to a server while
+    its 0-RTT receive keys are installed (hooked state of the crypto layer: the TLS engine accepted early data) and it
+    has not completed the handshake.  Duplicates of an opened packet owe nothing; 1-RTT packets that were not opened are
+    only counted (retired connection IDs and key updates drop genuine packets legitimately)."""
+
+    name = "peer-opens"
+
+    def __init__(self):
+        super().__init__()
+        self.checked = {}
+        self.seen = set()
+        self.key_updates = False
+
+    def on_app(self, ep, op, t, outcome):
+        if op.get("op") == "key_update":
+            self.key_updates = True
+
+    def on_deliver(self, ep, rec, from_addr, t, altered=False):
+        AckMonitor._install_open_watch()
+        del _OPENED[:]
+
+    def after_deliver(self, ep, rec, from_addr, t, altered=False):
+        if altered or ep.terminated:
+            return
+        from aioquic import tls
+
+        opened = AckMonitor._opened_by(ep)
+        for v in rec.views or []:
+            if v.error or v.pn is None or v.ptype not in ("0rtt", "1rtt"):
+                continue
+            key = (ep.name, v.ptype, v.pn)
+            if key in self.seen:
+                continue
+            must = False
+            if v.ptype == "0rtt" and ep.name == "server" and not ep.handshake_complete:
+                pair = getattr(ep.conn, "_cryptos", {}).get(tls.Epoch.ZERO_RTT)
+                must = pair is not None and pair.recv.is_valid()
+            elif v.ptype == "1rtt" and ep.handshake_complete and not self.key_updates and ("A", v.pn) not in opened:
+                # (1-RTT packets are only counted: one addressed to a connection ID the receiver has meanwhile retired
+                # at the sender's own request, or overtaken by a key update, is dropped legitimately)
+                self.obs_1rtt_not_opened = getattr(self, "obs_1rtt_not_opened", 0) + 1
+            if not must:
+                continue
+            self.evaluations += 1
+            self.checked[v.ptype] = self.checked.get(v.ptype, 0) + 1
+            if ("A", v.pn) in opened:
+                self.seen.add(key)
+            else:
+                raise Violation("peer:cannot-open-genuine-packet:%s" % v.ptype,
+                                "%s holds the %s receive keys but its packet protection did not open the genuine %s packet %d (version on the wire 0x%x) delivered at t=%.4f"
+                                % (ep.name, v.ptype, v.ptype, v.pn, getattr(v, "version", 0) or 0, t), {"t": t, "view": v.brief()})
+
+
 class TapMonitor(Monitor):
     """Every packet an endpoint emits must be opened by the independent RFC 9001/9369 reader and
     parse as well-formed frames to the last byte."""
